@@ -42,6 +42,42 @@ PRELUDE = """
 """
 
 
+
+# ---------------------------------------------------------------- fallback vocabulary for calls no spec maps: min / max /
+# abs over the reals or integers are exact; nano::epsilon0..3<double>() are positive constants (their values are not used),
+# so that a change that introduces one of them is decided instead of ending as "call not mapped" (exit 2)
+def _std_minmax(op):
+    def h(wp, n, args, callee):
+        a, b = wp.ev(args[0]), wp.ev(args[1])
+        if a.s != b.s or a.s not in ('Real', 'Int'):
+            raise Unsupported(f'{wp.name}: std::min/max of {a.s} and {b.s}')
+        return V(f'(ite ({op} {a.t} {b.t}) {a.t} {b.t})', a.s, a.c)
+    return h
+
+
+def _std_abs(wp, n, args, callee):
+    a = wp.ev(args[0])
+    if a.s not in ('Real', 'Int'):
+        raise Unsupported(f'{wp.name}: std::abs of {a.s}')
+    zero = '0.0' if a.s == 'Real' else '0'
+    return V(f'(ite (>= {a.t} {zero}) {a.t} (- {a.t}))', a.s, a.c)
+
+
+def _std_epsilon(wp, n, args, callee):
+    name = 'nv_' + unwrap(n['inner'][0]).get('referencedDecl', {}).get('name', 'epsilon')
+    if not any(d.startswith(f'(declare-const {name} ') for d in wp.decls):
+        wp.decls.append(f'(declare-const {name} Real)')
+        wp.facts.append(f'(> {name} 0.0)')
+    return V(name, 'Real', 'double')
+
+
+STD_CALLS = [
+    (r'^max\|const (double|long|int) &\(const \1 &, const \1 &\)', _std_minmax('>=')),
+    (r'^min\|const (double|long|int) &\(const \1 &, const \1 &\)', _std_minmax('<=')),
+    (r'^(fabs|abs)\|(double \(double\)|long \(long\)|int \(int\))', _std_abs),
+    (r'^epsilon[0-3]?\|double \(\)', _std_epsilon),
+]
+
 class V:
     __slots__ = ('t', 's', 'c')
 
@@ -423,6 +459,8 @@ class WP:
     def call(self, n):
         key, callee = self.call_key(n)
         h = self.lookup(self.calls, key)
+        if h is None:
+            h = self.lookup(STD_CALLS, key)      # small fallback vocabulary (exact over the reals / integers)
         if h is None:
             raise Unsupported(f'{self.name}: call not mapped: {key}')
         self.note(key.split('|')[0])
